@@ -647,7 +647,7 @@ func (c *specCtx) indexVal(v Val, t types.Type, iv Val) (Val, types.Type) {
 			}
 			c.fail("symbolic index into local array slice in spec")
 		}
-		px := &PtrX{Kind: PElem, Ref: v.slArr(), Idx: tb.Add(v.slOff(), iv.T[0]), Root: u.Elem(), Elem: -1}
+		px := &PtrX{Kind: PElem, Ref: v.slArr(), Idx: tb.Idx(v.slOff(), iv.T[0]), Root: u.Elem(), Elem: -1}
 		return c.loadPx(px, u.Elem()), u.Elem()
 	case *types.Map:
 		k := c.e.mapKey(c.st, u.Key(), iv)
@@ -1027,7 +1027,7 @@ func (c *specCtx) evalLocs(x SExpr) []Loc {
 		case *types.Slice:
 			var out []Loc
 			for _, l := range Leaves(u.Elem()) {
-				out = append(out, Loc{Class: c.e.elemClass(u.Elem(), "", l), Sort: ArrOf(ArrOf(l.Sort)), Ref: v.slArr(), Idx: tb.Add(v.slOff(), iv.T[0])})
+				out = append(out, Loc{Class: c.e.elemClass(u.Elem(), "", l), Sort: ArrOf(ArrOf(l.Sort)), Ref: v.slArr(), Idx: tb.Idx(v.slOff(), iv.T[0])})
 			}
 			return out
 		case *types.Map:
